@@ -33,7 +33,7 @@ def S(k, v="-", p="-"):
 
 
 OK = S("ok", "cl")
-SUCCESS = [OK, S("ok", "chunked"), S("ok_connclose"), S("ok_surplus", "cl"), S("ok_surplus", "chunked"), S("ok_closedelim"),
+SUCCESS = [OK, S("ok", "chunked"), S("ok_connclose"), S("ok_connclose", "mixed"), S("ok_connclose", "list"), S("ok_surplus", "cl"), S("ok_surplus", "chunked"), S("ok_closedelim"),
            S("ok_http10"), S("ok_http10_ka"), S("ok_then_fin"), S("ok_1xx"), S("ok_500"), S("ok_204"),
            S("ok_split", "cl", "body"), S("send_short", "-", "first"), S("send_eagain")]
 REQPOS = ["peek", "first", "line", "hdr", "last"]
@@ -205,7 +205,7 @@ def validate_chunks(ck, name, execs, nchunks):
         bad = []
         offset = 0
         # after a rejection, continue behind the rejected execution so that every bad execution of the chunk is found
-        while offset < len(part) and len(bad) < 4:
+        while offset < len(part) and len(bad) < 8:
             q = p if offset == 0 else p + ".rest"
             if offset:
                 with open(q, "w") as f:
@@ -273,22 +273,21 @@ def judge(ck, name, lines, preds, execs, rerun=True):
     ck.drift += drift
     ck.note("%s: %d executions, accepted by HttpRetryTrace %d, rejected %d, model drift %d, server-late (inconclusive for "
             "FramingNotRetried) %d" % (name, len(execs), ok_n, len(bad), drift, late))
-    for (i, inv, line) in bad[:6]:
+    todo = bad[:6]
+    again = {}
+    if rerun and todo:
+        # never report a rejection that does not repeat when the case is run again on a quiet machine (timing)
+        for k in range(2):
+            ex2, _ = run_cases(ck, "%s_re%d" % (name, k), [lines[i] for (i, inv, line) in todo], par=2)
+            b2 = dict((j, iv) for (j, iv, ln) in validate_chunks(ck, "%s_re%d" % (name, k), ex2, 1))
+            for j, (i, inv, line) in enumerate(todo):
+                if b2.get(j) == inv:
+                    again.setdefault(i, []).append(ex2[j][1])
+    for (i, inv, line) in todo:
         st, evs = execs[i]
-        confirmed = True
         why = "invariant %s of HttpRetryTrace.tla violated at event %d of the execution" % (inv, line)
-        if rerun:
-            # never report a rejection that does not repeat when the case runs alone (timing)
-            reps = 0
-            for k in range(2):
-                ex2, _ = run_cases(ck, "%s_re%d_%d" % (name, i, k), [lines[i]], par=1)
-                b2 = validate_chunks(ck, "%s_re%d_%d" % (name, i, k), ex2, 1)
-                if b2 and b2[0][1] == inv:
-                    reps += 1
-                    evs = ex2[0][1]
-            confirmed = reps == 2
-        if not confirmed:
-            ck.note("rejection of %s (%s) did not repeat when re-run alone: not reported (%s)" % (name, inv, lines[i]))
+        if rerun and len(again.get(i, [])) < 2:
+            ck.note("rejection of %s (%s) did not repeat when re-run: not reported (%s)" % (name, inv, lines[i]))
             ck.flaky += 1
             continue
         rp = ck.save_replay("%s_%s_%d" % (name, inv, i), {
@@ -372,8 +371,9 @@ def selftest_devs(ck):
 
 
 # ------------------------------------------------------------------------------------------------- the check
-def generate(ck, thorough):
-    cfgs = configs(thorough)
+def generate(ck, thorough, cfgs=None):
+    main = cfgs is None
+    cfgs = cfgs or configs(thorough)
 
     def go(c):
         tla_path, cfg = write_mc(ck, c)
@@ -388,7 +388,7 @@ def generate(ck, thorough):
         ck.states += r.distinct
         ck.transitions += r.generated
         for a, (tk, gn) in r.coverage.items():
-            ck.cov[a] = ck.cov.get(a, 0) + tk
+            ck.cov[a] = ck.cov.get(a, 0) + gn
         if r.violated:
             rp = ck.save_replay("impl_spec_" + c["name"], {"tlc.out": r.out[-20000:]})
             ck.violation("HttpRetry.tla (Impl, all Dev_* FALSE) violates %s in configuration %s" % (r.violated, c["name"]), rp)
@@ -407,31 +407,22 @@ def generate(ck, thorough):
             keys = ck.rng.sample(keys, c["take"])
         ck.note("TLC %s: %s -> %d distinct cases, %d run" % (c["name"], r.summary(), total, len(keys)))
         groups.append((c["name"], keys, [cases[k] for k in keys], total))
-    for a in ACTIONS:
+    for a in ACTIONS if main else []:
         if ck.cov.get(a, 0) == 0:
             raise vf.Infra("self-test: Impl action %s never taken in any configuration" % a)
     return groups
 
 
-def sweep_cases(reqlen, resplen):
-    """thorough: the fault position over every byte offset of the request and of the response"""
-    lines = []
-    head = "reuse=1 rt=%d idle=0 conc=0 | " % RT
-    for m in ("GET", "POST"):
-        n = reqlen[m]
-        for off in range(0, n):
-            lines.append(head + "%s 2 0 send_fail@#%d;ok:cl" % (m, off))
-        for off in range(1, n):
-            lines.append(head + "%s 2 0 req_close@#%d;req_close@#%d;ok:cl" % (m, off, off))
-            lines.append(head + "%s 1 0 req_rst@#%d;ok:cl | GET 0 0 ok:cl" % (m, off))
-            lines.append(head + "%s 1 0 send_short@#%d" % (m, off))
-        for v in ("cl", "chunked"):
-            for off in range(1, resplen[v]):
-                lines.append(head + "%s 2 0 resp_close:%s@#%d;resp_close:%s@#%d;ok:cl" % (m, v, off, v, off))
-                lines.append(head + "%s 1 0 resp_rst:%s@#%d;ok:cl | POST 0 0 ok:cl" % (m, v, off))
-                lines.append(head + "%s 1 0 resp_silence:%s@#%d;ok:cl | POST 0 0 ok:cl" % (m, v, off))
-                lines.append(head + "%s 1 0 ok_split:%s@#%d | POST 1 0 ok_surplus:cl | GET 0 0 ok:cl" % (m, v, off))
-    return lines
+def sweep_config(m, reqlen, resplen):
+    """thorough: the fault position over every byte offset of the request and of the response (position "#n")"""
+    n = reqlen[m]
+    steps = [OK]
+    steps += [S("send_fail", "-", "#%d" % o) for o in range(0, n)]
+    steps += [S(k, "-", "#%d" % o) for k in ("req_close", "req_rst", "send_short") for o in range(1, n)]
+    for v in ("cl", "chunked"):
+        steps += [S(k, v, "#%d" % o) for k in ("resp_close", "resp_rst", "resp_silence", "ok_split") for o in range(1, resplen[v])]
+    return dict(name="sweep" + m, callers=[1], nreq=1, methods=[m], budgets=[1], steps=steps, oktail=[OK], maxfk=1,
+                reuse=True, idle=False, take=None)
 
 
 def run(ck):
@@ -475,11 +466,12 @@ def run(ck):
         lens_path = os.path.join(ck.work, "lens.json")
         rc, out = vf.run_driver("drv_httpretry", ["lens", lens_path])
         resplen = json.load(open(lens_path))["resp"]
-        lines = sweep_cases(reqlen, resplen)
-        execs, path = run_cases(ck, "sweep", lines)
-        judge(ck, "sweep", lines, None, execs)
+        sweeps = generate(ck, thorough, [sweep_config(m, reqlen, resplen) for m in ("GET", "POST")])
+        for name, keys, preds, total in sweeps:
+            execs, path = run_cases(ck, name, keys)
+            judge(ck, name, keys, preds, execs)
         ck.note("byte-offset sweep: request lengths %s, response lengths %s, %d cases" % (
-            {m: reqlen[m] for m in ("GET", "POST")}, resplen, len(lines)))
+            {m: reqlen[m] for m in ("GET", "POST")}, resplen, sum(len(k) for n_, k, p_, t_ in sweeps)))
     if ck.drift:
         ck.note("model drift total: %d executions differ from the Impl prediction but are accepted by the Abs oracle" % ck.drift)
     if ck.flaky > 5:
